@@ -138,6 +138,11 @@ def mutate(rng, text):
     elif r < 0.75:
         k = rng.randint(0, len(text))
         return text[:k]
+    elif r < 0.82 and lines:
+        # the marker of a hunk line replaced by another one (a '+' in the old part of a context hunk, a '<' for a '>' ...)
+        idx = [i for i, l in enumerate(lines) if l[:1] in (b"+", b"-", b"!", b" ", b"<", b">")]
+        if idx:
+            i = rng.choice(idx); lines[i] = rng.choice([b"+", b"-", b"!", b" ", b"<", b">"]) + lines[i][1:]
     elif r < 0.9 and text:
         k = rng.randrange(len(text))
         return text[:k] + bytes([rng.choice([0, 9, 10, 13, 32, 34, 43, 45, 47, 92, 255, rng.randrange(256)])]) + text[k + 1:]
